@@ -146,12 +146,13 @@ inline RayTri rayTriangle(const Vec3& o, const Vec3& d, const Vec3& a, const Vec
 }
 
 // ------------------------------------------------------------------ finite differences
-// 4th-order central first derivative with a Richardson pair; ok=false when (h, h/2) disagree by more than agreeTol.
+// 4th-order central first derivative with a Richardson pair (extrapolated); ok=false when (h, h/2) disagree by
+// more than agreeTol (the caller then skips the comparison and counts the skip).
 inline double fd1(const std::function<double(double)>& f, double h, double agreeTol, bool& ok) {
     auto d = [&](double s) { return (-f(2 * s) + 8 * f(s) - 8 * f(-s) + f(-2 * s)) / (12 * s); };
     double a = d(h), b = d(h / 2);
     ok = std::isfinite(a) && std::isfinite(b) && std::abs(a - b) <= agreeTol;
-    return b;
+    return (16 * b - a) / 15;   // Richardson extrapolation: error << |a-b|/15 when the pair agrees
 }
 // 4th-order central second derivative with a Richardson pair.
 inline double fd2(const std::function<double(double)>& f, double h, double agreeTol, bool& ok) {
@@ -159,7 +160,74 @@ inline double fd2(const std::function<double(double)>& f, double h, double agree
     auto d = [&](double s) { return (-f(2 * s) + 16 * f(s) - 30 * f0 + 16 * f(-s) - f(-2 * s)) / (12 * s * s); };
     double a = d(h), b = d(h / 2);
     ok = std::isfinite(a) && std::isfinite(b) && std::abs(a - b) <= agreeTol;
-    return b;
+    return (16 * b - a) / 15;
+}
+
+// ------------------------------------------------------------------ ellipsoid distance / overlap oracles (used by C35)
+// Jacobi eigen-decomposition of a symmetric 3x3 matrix: M = V diag(w) V^T.
+inline void symEig3(const Mat33& Min, Vec3& w, Mat33& V) {
+    Mat33 A = Min; V = Mat33(1);
+    for (int sweep = 0; sweep < 60; ++sweep) {
+        double off = std::abs(A(0,1)) + std::abs(A(0,2)) + std::abs(A(1,2));
+        double diag = std::abs(A(0,0)) + std::abs(A(1,1)) + std::abs(A(2,2));
+        if (off <= 1e-18 * diag) break;
+        for (int p = 0; p < 2; ++p) for (int q = p + 1; q < 3; ++q) {
+            if (A(p,q) == 0) continue;
+            double theta = (A(q,q) - A(p,p)) / (2 * A(p,q));
+            double t = (theta >= 0 ? 1 : -1) / (std::abs(theta) + std::sqrt(theta * theta + 1));
+            double c = 1 / std::sqrt(t * t + 1), sn = t * c;
+            Mat33 J(1); J(p,p) = c; J(q,q) = c; J(p,q) = sn; J(q,p) = -sn;
+            A = J.transpose() * A * J; V = V * J;
+        }
+    }
+    w = Vec3(A(0,0), A(1,1), A(2,2));
+}
+// Distance from a point y strictly OUTSIDE the axis-aligned ellipsoid sum (x_i/e_i)^2 = 1 to the ellipsoid, by bisection on
+// the Lagrange multiplier (unique positive root; zero coordinates are harmless for outside points).  x = closest point.
+inline double distOutsidePointToEllipsoid(const Vec3& e, const Vec3& y, Vec3& x) {
+    auto F = [&](double t) { double s = 0; for (int i = 0; i < 3; ++i) { double r = e[i] * y[i] / (t + e[i] * e[i]); s += r * r; } return s - 1; };
+    double lo = 0, hi = std::max(std::max(e[0], e[1]), e[2]) * y.norm() + 1e-300;
+    while (F(hi) > 0) hi *= 2;
+    for (int it = 0; it < 200; ++it) { double mid = (lo + hi) / 2; if (mid == lo || mid == hi) break; (F(mid) > 0 ? lo : hi) = mid; }
+    double t = (lo + hi) / 2;
+    for (int i = 0; i < 3; ++i) x[i] = e[i] * e[i] * y[i] / (t + e[i] * e[i]);
+    return (x - y).norm();
+}
+// Sign-exact overlap margin of ellipsoid A (radii a, at the origin, axis aligned) and ellipsoid B (radii b, rotation R, centre c):
+// scale space so that A is the unit ball; the margin is (distance from the origin to the image of B) - 1, or -1 if the origin
+// is inside the image of B.  margin < 0 <=> the solids overlap.
+inline double ellipsoidOverlapMargin(const Vec3& a, const Vec3& b, const Mat33& R, const Vec3& c) {
+    Mat33 S(0), D(0); for (int i = 0; i < 3; ++i) { S(i,i) = a[i]; D(i,i) = 1 / (b[i] * b[i]); }
+    Mat33 M = S * R * D * R.transpose() * S; M = (M + M.transpose()) / 2;
+    Vec3 w; Mat33 V; symEig3(M, w, V);
+    Vec3 e(1 / std::sqrt(w[0]), 1 / std::sqrt(w[1]), 1 / std::sqrt(w[2]));
+    Vec3 cp(c[0] / a[0], c[1] / a[1], c[2] / a[2]);
+    Vec3 y = V.transpose() * (-cp);
+    double lvl = 0; for (int i = 0; i < 3; ++i) lvl += (y[i] / e[i]) * (y[i] / e[i]);
+    if (lvl <= 1) return -1;
+    Vec3 x; return distOutsidePointToEllipsoid(e, y, x) - 1;
+}
+
+// ------------------------------------------------------------------ triangle / triangle intersection, three-valued
+inline double orient3(const Vec3& a, const Vec3& b, const Vec3& c, const Vec3& d) { return SimTK::dot(a - d, (b - d) % (c - d)); }
+// segment pq against triangle abc: 1 = crosses the interior, 0 = definitely misses, -1 = touching / too close to call
+inline int segTri(const Vec3& p, const Vec3& q, const Vec3& a, const Vec3& b, const Vec3& c, double eps) {
+    double s1 = orient3(a, b, c, p), s2 = orient3(a, b, c, q);
+    if ((s1 > eps && s2 > eps) || (s1 < -eps && s2 < -eps)) return 0;
+    double o1 = orient3(p, q, a, b), o2 = orient3(p, q, b, c), o3 = orient3(p, q, c, a);
+    if ((o1 > eps && o2 > eps && o3 > eps) || (o1 < -eps && o2 < -eps && o3 < -eps)) return (std::abs(s1) <= eps || std::abs(s2) <= eps) ? -1 : 1;
+    double mx = std::max(o1, std::max(o2, o3)), mn = std::min(o1, std::min(o2, o3));
+    if (mx > eps && mn < -eps) return 0;
+    return -1;
+}
+// 1 = the triangles cross, 0 = disjoint, -1 = touching / coplanar / too close to call.  eps is a volume (length^3) tolerance.
+inline int triTri(const Vec3 t1[3], const Vec3 t2[3], double eps) {
+    bool uncertain = false;
+    for (int k = 0; k < 3; ++k) {
+        int r = segTri(t1[k], t1[(k + 1) % 3], t2[0], t2[1], t2[2], eps); if (r == 1) return 1; if (r < 0) uncertain = true;
+        r = segTri(t2[k], t2[(k + 1) % 3], t1[0], t1[1], t1[2], eps); if (r == 1) return 1; if (r < 0) uncertain = true;
+    }
+    return uncertain ? -1 : 0;
 }
 
 }  // namespace gk
